@@ -716,6 +716,18 @@ func sweepTextFor(r *rand.Rand) []byte {
 		b = append(b, pick(r, []string{"", " ", "\n", ","})...)
 		b = append(b, gen.Value(r, cfg)...)
 	}
+	if r.IntN(12) == 0 {
+		// long runs of insignificant whitespace around the value (they fill the read buffer without adding a token)
+		ws := strings.Repeat(pick(r, []string{" ", "\n", " \t", "\r\n"}), pick(r, []int{40, 48, 63, 64, 65, 100, 200, 5000}))
+		switch r.IntN(3) {
+		case 0:
+			b = append(b, ws...)
+		case 1:
+			b = append([]byte(ws), b...)
+		default:
+			b = append(append([]byte(ws[:len(ws)/2]), b...), ws...)
+		}
+	}
 	if r.IntN(40) == 0 {
 		// raw random bytes
 		b = make([]byte, r.IntN(24))
